@@ -2,7 +2,7 @@
   Driver ops for C06.
     partial : {policy, env, impl:{keep, policy?}} → "dom=0|1 domI=0|1 agree" | "dom=0|1 domI=0|1 differ model=… impl=…"
       (`dom` = the case satisfies `partialDomain`, the premise of the keep / drop soundness theorems: no ignore marker
-       is met; `domI` = the ignore-widening theorem applies: always 1 since the repairs of partial.go)
+       is met; `domI` = the ignore-widening theorem applies: no record literal repeats a key)
       runs `partialPolicy` (Model/Partial.lean) on the policy and the partial environment (unknowns / ignore
       markers arrive as the reserved entities) and compares the model's residual with the implementation's
       residual AST after canonical rendering (`showExpr`; the message inside `__cedar::partialError(..)` is masked).
@@ -87,8 +87,8 @@ def opPartial : Handler := fun envs j => do
   let implRes ← if keep then do let q ← decPolicy (← field impl "policy"); pure (some q) else pure none
   let m := showPartial (partialPolicy env p)
   let i := showPartial implRes
-  -- `domI`: the ignore-widening theorem has no domain hypothesis any more (kept in the answer format, always 1)
-  let dom := (if partialDomain env p then "dom=1" else "dom=0") ++ " domI=1"
+  -- `domI`: the ignore-widening theorem only asks that no record literal repeats a key (1 for every parsed/decoded policy)
+  let dom := (if partialDomain env p then "dom=1" else "dom=0") ++ (if p.recKeysDistinct then " domI=1" else " domI=0")
   .ok (dom ++ " " ++ (if m == i then "agree" else s!"differ model={m} impl={i}"))
 
 def c06Ops : List (String × Handler) := [("partial", opPartial), ("partial-show", opPartialShow)]
